@@ -220,6 +220,25 @@ Definition design_line_amps (c : cfg) (s : scfg) (lib : string -> option alib) (
   let* items := amp_items c rgain opsf ptot dst_roadm None (combine pre post) in
   design_amps s lib sel D0 items.
 
+(* ---------- the complete design of a line and its export / reload ---------- *)
+Fixpoint ops_lookup (k : string) (l : list ain) (d : ain) : ain :=
+  match l with [] => d | a :: t => if String.eqb k (i_name a) then a else ops_lookup k t d end.
+(* operational blocks of a loaded line: an amplifier without entry is one inserted by auto-design (tilt_target 0) *)
+Definition ops_of (l : list ain) (k : string) : ain := ops_lookup k l (mkIn k "" None None (Some 0%Q) None None).
+(* fibre side (add_missing, connector losses, padding) and amplifier settings of one line *)
+Definition design_full (c : cfg) (s : scfg) (lib : string -> option alib) (sel : string -> string)
+  (rgain : string -> Q) (opsf : string -> ain) (D0 ptot : Q) (l : line) : res (line * list aout) :=
+  let* l1 := add_missing c l in
+  let els := conn c (l_els l1) in
+  let* p := pad_chain c els in
+  let* outs := design_line_amps c s lib sel rgain opsf D0 ptot (match l_dk l with Roadm => true | Trx => false end) els in
+  Ok (with_els l1 p, outs).
+(* network_to_json restricted to the line: its elements and the operational blocks of its amplifiers *)
+Definition export_full (r : line * list aout) : list elem * list ain :=
+  (export_els (l_els (fst r)), map export_amp (snd r)).
+(* network_from_json of that export *)
+Definition reload_full (l : line) (j : list elem * list ain) : line := with_els l (fst j).
+
 (* ---------- SimParams ---------- *)
 Inductive jv := JB (b : bool) | JS (s : string) | JZ (z : Z) | JQ (q : Q) | JZL (l : list Z) | JNone.
 Definition kw := list (string * jv).
